@@ -6,6 +6,7 @@ h2/connection
 An implementation of a HTTP/2 connection.
 """
 import base64
+import collections
 
 from enum import Enum, IntEnum
 
@@ -353,6 +354,11 @@ class H2Connection:
         # Data that needs to be sent.
         self._data_to_send = bytearray()
 
+        # The SETTINGS frames we have sent that the remote peer has not yet
+        # acknowledged, oldest first: for each frame sent by update_settings,
+        # the settings it carried; ``None`` for the initial SETTINGS frame.
+        self._unacknowledged_settings = collections.deque()
+
         # Keeps track of how streams are closed.
         # Used to ensure that we don't blow up in the face of frames that were
         # in flight when a RST_STREAM was sent.
@@ -503,6 +509,7 @@ class H2Connection:
             "Send Settings frame: %s", self.local_settings
         )
 
+        self._unacknowledged_settings.append(None)
         self._data_to_send += preamble + f.serialize()
 
     def initiate_upgrade_connection(self, settings_header=None):
@@ -1108,6 +1115,7 @@ class H2Connection:
                 )
 
         self.local_settings.update(new_settings)
+        self._unacknowledged_settings.append(list(new_settings))
         s = SettingsFrame(0)
         s.settings = new_settings
         self._prepare_for_sending([s])
@@ -1964,7 +1972,15 @@ class H2Connection:
         """
         Handle the local settings being ACKed, update internal state.
         """
-        changes = self.local_settings.acknowledge()
+        # Acknowledgements arrive in the order the SETTINGS frames were sent,
+        # and each one applies the values of its own frame only. The
+        # acknowledgement of the initial frame (or one we cannot attribute)
+        # applies whatever is outstanding, as it always has.
+        settings = None
+        if self._unacknowledged_settings:
+            settings = self._unacknowledged_settings.popleft()
+
+        changes = self.local_settings.acknowledge(settings)
 
         if SettingCodes.INITIAL_WINDOW_SIZE in changes:
             setting = changes[SettingCodes.INITIAL_WINDOW_SIZE]
